@@ -363,6 +363,8 @@ def matches(q, d):
         return v is not None and _in_range(v, q.startdate, q.enddate, q.startexcl, q.endexcl)
     if isinstance(q, query.NumericRange):
         v = d.get(q.fieldname)
+        if isinstance(v, (list, tuple)):   # a numeric field given several values: the document has each of them
+            return any(_in_range(x, q.start, q.end, q.startexcl, q.endexcl) for x in v)
         return v is not None and _in_range(v, q.start, q.end, q.startexcl, q.endexcl)
     if isinstance(q, query.TermRange):
         return any(_in_range(t, q.start, q.end, q.startexcl, q.endexcl) for t in toks(d, q.fieldname))
@@ -385,8 +387,9 @@ def matches(q, d):
     if isinstance(q, query.Every):
         if q.fieldname is None:
             return True
-        if q.fieldname in ("n", "d", "b"):
-            return d.get(q.fieldname) is not None
+        v = d.get(q.fieldname)
+        if q.fieldname in ("n", "d", "b") or (v is not None and not isinstance(v, str)):
+            return v is not None and v != [] and v != ()
         return bool(toks(d, q.fieldname))
     if isinstance(q, query.And):
         return bool(q.subqueries) and all(matches(s, d) for s in q.subqueries)
